@@ -31,7 +31,7 @@ ASSUMPTIONS = [
 ]
 LEVEL_SCOPE = ("Decides the listed clauses for every order type (piece) over real arithmetic, reporting only definite disagreements; floating-point "
                "rounding and the clauses listed as undecided are not decided.")
-FLOORS = {"K1": 16, "F": 16, "L1": 16, "L2": 16, "L3": 16, "L4": 7, "L5": 16, "L6": 15, "V1": 16, "V8": 16}
+FLOORS = {"V10": 2, "K1": 16, "F": 16, "L1": 16, "L2": 16, "L3": 16, "L4": 7, "L5": 16, "L6": 15, "V1": 16, "V8": 16}
 
 # documented formulas: cases in order (first match wins), over a, b
 NORMS: dict[str, dict] = {
@@ -134,6 +134,10 @@ def sign_of_difference(a_term: Any, b_term: Any, lf, ev, alg) -> str | None:  # 
 
 
 def run(check: Check) -> None:
+    from .common import numpy_pitfalls
+
+    if not numpy_pitfalls(check, "V10", {"fuzzylite/norm.py"}):
+        return  # the kernels are not the elementwise expressions the interpreters assume
     from ..ordertype import describe, flatten, spec_term
 
     p = check.program
